@@ -303,6 +303,19 @@ theorem no_key_rejected (b : Box K N P C) (codec : InnerCodec X Y P) (ring : Key
       · simp [hk]
     simp [receive, ha, hd]
 
+/-- non-vacuity of the three rejection theorems on the toy box: inner URI ≠ envelope; key 6 ≠ 5; no key; no codec -/
+example : receive (Toy.box Nat Nat (Inner Nat Nat)) (Toy.codec Nat Nat (fun _ _ => false)) (some ringDefault) false
+    "com.x".toList (sealedMsg (.sealed 5 1 ⟨some "com.y".toList, some 1, none⟩)) = .rejected .trustedUriMismatch := by decide
+
+example : receive (Toy.box Nat Nat (Inner Nat Nat)) (Toy.codec Nat Nat (fun _ _ => false)) (some ringDefault) false
+    "com.x".toList (sealedMsg (.sealed 6 1 ⟨some "com.x".toList, some 1, none⟩)) = .rejected .decryptError := by decide
+
+example : receive (Toy.box Nat Nat (Inner Nat Nat)) (Toy.codec Nat Nat (fun _ _ => false)) (some ringPrefix) false
+    "com.public.x".toList (sealedMsg (.sealed 5 1 ⟨some "com.public.x".toList, some 1, none⟩)) = .rejected .decryptError := by decide
+
+example : receive (Toy.box Nat Nat (Inner Nat Nat)) (Toy.codec Nat Nat (fun _ _ => false)) none false
+    "com.x".toList (sealedMsg (.sealed 5 1 ⟨some "com.x".toList, some 1, none⟩)) = .rejected .noPayloadCodec := by decide
+
 /-- Safety, all inputs: whenever a handler / endpoint / pending call is given a *decoded* payload, that payload is the
 content of a ciphertext sealed under the receiver's key for this envelope URI, and its inner URI is the envelope's.
 (An altered payload is never delivered.) -/
